@@ -50,8 +50,18 @@ func verifC02Basic(tokens, waiters int) {
 		return
 	}
 	inst.startMonitor()
-	for k := 0; k < tokens; k++ {
+	if tokens == 1 {
 		inst.startToken(0)
+	} else {
+		// a start event with several outgoing flows: its own flow (flow.Start: wait-group count taken before the
+		// goroutine, released when the flow ends) sends the FlowTrace and then starts the additional flows, so the
+		// count it holds covers the window between the FlowTrace and the siblings' flow.Start
+		inst.proc.flowWaitGroup.Add(1)
+		inst.proc.subTracer.Send(FlowTrace{Source: inst.elem(verifTaskNames[0])})
+		for k := 0; k < tokens; k++ {
+			inst.tokenAt("e", verifFlowNames[0])
+		}
+		inst.proc.flowWaitGroup.Done()
 	}
 	var returned int64
 	for w := 0; w < waiters; w++ {
